@@ -272,3 +272,78 @@ func checkFreshDecodeTargets(w *World, r *Report, rel, fnName string) {
 		}
 	}
 }
+
+// checkSerialiserLoops (seq.all-items): a serialiser writes every item of the list it ranges
+// over: the only way out of its item loop, apart from the loop's own exhaustion test at the
+// header, is a return of a non-nil error.  A `break` (size cap, "enough" heuristic) silently
+// drops the remaining items.
+func checkSerialiserLoops(w *World, r *Report, rel string, pick func(fn *ssa.Function) bool) {
+	p := w.ByRel[rel]
+	if p == nil {
+		return
+	}
+	sp := w.SSA[p]
+	for fn := range w.AllFuncs() {
+		if fn.Pkg != sp || fn.Blocks == nil || !pick(fn) {
+			continue
+		}
+		name := SSAFuncName(fn)
+		for h, body := range naturalLoops(fn) {
+			r.Fn(name)
+			r.Site("seq.all-items")
+			ok := true
+			for b := range body {
+				if b == h {
+					continue
+				}
+				for _, s := range b.Succs {
+					if body[s] {
+						continue
+					}
+					if errorReturnOnly(s, map[*ssa.BasicBlock]bool{}) {
+						continue
+					}
+					ok = false
+					r.Fail("seq.all-items", name, "early exit from the item loop", blockPos(b), "the item loop can be left before the list is exhausted without returning an error: the remaining items are not serialised", nil)
+				}
+			}
+			if ok {
+				r.OK("seq.all-items")
+			}
+		}
+	}
+}
+
+// errorReturnOnly: every path from b ends in a return whose last result is an error that is not
+// the nil constant (or in a panic).
+func errorReturnOnly(b *ssa.BasicBlock, seen map[*ssa.BasicBlock]bool) bool {
+	if seen[b] {
+		return true
+	}
+	seen[b] = true
+	switch t := b.Instrs[len(b.Instrs)-1].(type) {
+	case *ssa.Return:
+		if len(t.Results) == 0 {
+			return false
+		}
+		last := t.Results[len(t.Results)-1]
+		if last.Type().String() != "error" {
+			return false
+		}
+		if c, isC := last.(*ssa.Const); isC && c.Value == nil {
+			return false
+		}
+		return true
+	case *ssa.Panic:
+		return true
+	}
+	if len(b.Succs) == 0 {
+		return false
+	}
+	for _, s := range b.Succs {
+		if !errorReturnOnly(s, seen) {
+			return false
+		}
+	}
+	return true
+}
